@@ -94,6 +94,17 @@ func genGeneric(prop string, tweak func(g *genCtx), mix Mix) func(seed, run int6
 				g.opProvide(g.pickScope())
 			}
 		}
+		if g.tmpl == nil && g.ft.DeepChains {
+			switch x := g.r.Intn(100); {
+			case x < 4:
+				g.tmpl = (*genCtx).tmplDeepChain
+			case x < 9:
+				g.tmpl = (*genCtx).tmplHeal
+			case x < 11:
+				// a cycle no registration-time check can see, met while resolving
+				g.tmpl = (*genCtx).tmplCrossSiblingCycle
+			}
+		}
 		if g.tmpl != nil {
 			// templates build the in-flight state a property needs (DESIGN §4.1)
 			half := len(g.h.Ops) + (g.ft.MaxOps-len(g.h.Ops))/2
@@ -113,6 +124,7 @@ func init() {
 		Prop: "C07",
 		Rule: "history in which an injected fault fired in a constructor or decorator, the identical Invoke was issued again right after, and the failed function was re-executed and then succeeded",
 		Gen: genGeneric("C07", func(g *genCtx) {
+			g.ft.DeepChains = true
 			g.ft.FaultRate = []float64{0.1, 0.25, 0.4}[g.r.Intn(3)]
 			g.ft.FaultInv = 0.05
 			g.ft.PRetry = 0.6
@@ -126,6 +138,7 @@ func init() {
 		Prop: "C02",
 		Rule: "history in which some function's result was consumed at least 3 times over at least 2 Invokes, at least one of them after a failed Invoke",
 		Gen: genGeneric("C02", func(g *genCtx) {
+			g.ft.DeepChains = true
 			g.ft.FaultRate = []float64{0, 0.05, 0.25}[g.r.Intn(3)]
 			g.ft.FaultInv = 0.1
 			g.ft.PRetry = 0.5
@@ -204,6 +217,7 @@ func init() {
 		Prop: "C01",
 		Rule: "history with a successful Invoke that executed at least 3 functions and resolved at least one argument across a scope boundary",
 		Gen: genGeneric("C01", func(g *genCtx) {
+			g.ft.DeepChains = true
 			someFaults(g)
 			g.ft.PAvail = 0.95
 			g.ft.PReenter = []float64{0, 0, 0.08}[g.r.Intn(3)]
@@ -221,6 +235,7 @@ func init() {
 		Prop: "C03",
 		Rule: "history with an Invoke whose dependency closure has at least 2 functions while at least 2 registered functions in at least 2 scopes are outside it (bystanders)",
 		Gen: genGeneric("C03", func(g *genCtx) {
+			g.ft.DeepChains = true
 			noFaults(g)
 			if g.r.Intn(3) == 0 {
 				// laziness must also hold around failures: what a failed
@@ -239,6 +254,7 @@ func init() {
 		Prop: "C04",
 		Rule: "history with an Invoke over a gap: a missing provider at depth >= 2 of the closure, or an optional dependency whose provider is unavailable",
 		Gen: genGeneric("C04", func(g *genCtx) {
+			g.ft.DeepChains = true
 			someFaults(g)
 			g.ft.PAvail = []float64{0.6, 0.8, 0.95}[g.r.Intn(3)]
 			g.ft.Optional, g.ft.Objects = true, true
@@ -257,6 +273,7 @@ func init() {
 		Prop: "C08",
 		Rule: "history over at least 3 scopes with a shadowed key (provided in two enclosing scopes) and a scope created after a Provide to one of its ancestors, with at least one argument resolved across a scope boundary",
 		Gen: genGeneric("C08", func(g *genCtx) {
+			g.ft.DeepChains = true
 			noFaults(g)
 			g.ft.Decorators = false
 			g.ft.MaxScopes = g.r.Range(3, 7)
@@ -335,8 +352,11 @@ func init() {
 			g.ft.Objects, g.ft.Soft = true, true
 			g.ft.GroupDecs = false
 			g.ft.NT = g.r.Range(2, 4)
-			if g.r.Intn(3) == 0 {
+			switch g.r.Intn(6) {
+			case 0, 1:
 				g.tmpl = (*genCtx).tmplSoftMix
+			case 2:
+				g.tmpl = (*genCtx).tmplSliceMembers
 			}
 		}, Mix{Scope: 2, Provide: 12, Decorate: 1, Invoke: 10, VisStr: 0}),
 		Eval: evalSimple("C11", func(c *Checked) bool {
@@ -348,6 +368,7 @@ func init() {
 		Prop: "C12",
 		Rule: "history in which an argument was produced by a decorator registered in an ancestor of the consumer's scope, or by a decorator whose own input came from another decorator",
 		Gen: genGeneric("C12", func(g *genCtx) {
+			g.ft.DeepChains = true
 			someFaults(g)
 			g.ft.Decorators = true
 			g.ft.GroupDecs = g.r.P(0.6)
@@ -368,6 +389,7 @@ func init() {
 		Prop: "C13",
 		Rule: "history in which at least two different failure sources surfaced (injected error / injected panic in a dependency or in the invoked function / a dig-originated failure)",
 		Gen: genGeneric("C13", func(g *genCtx) {
+			g.ft.DeepChains = true
 			g.ft.FaultRate = []float64{0.1, 0.25, 0.4}[g.r.Intn(3)]
 			g.ft.FaultInv = 0.3
 			g.ft.PAvail = 0.85
@@ -395,6 +417,7 @@ func init() {
 		Prop: "C20",
 		Rule: "history in which a callback fired after a failing execution or with a non-zero simulated runtime while a dependency also spent simulated time",
 		Gen: genGeneric("C20", func(g *genCtx) {
+			g.ft.DeepChains = true
 			g.ft.FaultRate = []float64{0, 0.1, 0.3}[g.r.Intn(3)]
 			g.ft.Callbacks, g.ft.Slow = true, true
 			g.ft.FaultCB = []float64{0, 0, 0.1}[g.r.Intn(3)]
@@ -405,6 +428,10 @@ func init() {
 				g.ft.NT = 6
 				g.ft.Names, g.ft.Groups = []string{"n1", "n2"}, []string{"g1", "g2"}
 			}
+			// locations given with LocationForPC, also on functions that share
+			// one code address: the Name is the one of the given location
+			g.ft.LocPC = g.r.P(0.4)
+			g.ft.LocPCDyn = g.ft.LocPC
 		}, defaultMix),
 		Eval: evalSimple("C20", func(c *Checked) bool {
 			return c.Probes["callback_error"]+c.Probes["callback_panic"] > 0 || c.Probes["callback_runtime_checked"] > 0
@@ -525,8 +552,12 @@ func init() {
 			// odd but legal types and names from the malformed grammar reach the labels
 			g.ft.MalRate = []float64{0, 0.05, 0.15}[g.r.Intn(3)]
 			g.ft.VisAfterInvoke = 0.6
-			if g.r.Intn(4) == 0 {
+			switch g.r.Intn(8) {
+			case 0, 1:
 				g.tmpl = (*genCtx).tmplGroupFailure
+			case 2:
+				g.tmpl = (*genCtx).tmplDeepChain
+				g.ft.FaultRate = []float64{0, 0, 0.15}[g.r.Intn(3)]
 			}
 		}, Mix{Scope: 2, Provide: 12, Decorate: 1, Invoke: 6, VisStr: 6}),
 		Eval: evalSimple("C19", func(c *Checked) bool {
